@@ -324,4 +324,10 @@ def run(ctx):
     parse = [n for n in H.walk(tn["body"]) if H.kind(n) == "MethodCall" and n["name"] == "parse"]
     okp = len(parse) == 1 and "f64" in (parse[0].get("ty") or "")
     arith = [n for n in H.walk(tn["body"]) if H.kind(n) == "Binary" and n["op"] in ("Add", "Sub", "Mul", "Div")]
+    # a successfully parsed number is returned whatever it is: a filter on its class (is_normal, is_subnormal, classify, a magnitude test)
+    # rejects texts that to_string produced for some number
+    filt = sorted({n["name"] for n in H.walk(tn["body"]) if H.kind(n) == "MethodCall" and n["name"] in ("is_normal", "is_subnormal", "classify", "is_sign_negative", "is_sign_positive", "abs", "fract", "floor", "trunc", "round")})
+    ctx.inst("C16.R3", "functions::BuiltInFunction::call[ToNumber]#unfiltered", not filt, "tests / roundings applied to the parsed number before it is returned: %s" % (filt or "none"), H.loc(tn["body"]))
+    from rules import c06 as c06_
+    c06_.to_json_number_rule(ctx, "C16.R1", core)
     ctx.inst("C16.R3", "functions::BuiltInFunction::call[ToNumber]", okp and not arith, "to_number parses with <f64 as FromStr> (%d parse calls), arithmetic on the result: %d" % (len(parse), len(arith)), H.loc(tn["body"]))
